@@ -25,10 +25,10 @@ TYPE_NAMES = ('BOOLEAN', 'INTEGER', 'REAL', 'STRING', 'UNIQUE_ID')
 
 
 def run(ctx):
-    access(ctx)
-    normalise(ctx)
-    kwargs_rule(ctx)
-    typecase(ctx, ['xtuml.meta'], 'C10-TYPECASE')
+    ctx.guard(access, ctx)
+    ctx.guard(normalise, ctx)
+    ctx.guard(kwargs_rule, ctx)
+    ctx.guard(typecase, ctx, ['xtuml.meta'], 'C10-TYPECASE')
     ctx.assume('attribute values live in instance.__dict__ under the declared spelling (MetaClass.new sets '
                'every declared attribute), so a second cell can only appear through the three dunder methods')
     return ('Abstract execution of Class.__getattr__/__setattr__/__delattr__ over every combination of '
@@ -147,10 +147,10 @@ def access(ctx):
         return f
 
     def store_dict(e, s, tr):
-        tr.append(('store', _cell(e['_K'], s, P)))
+        tr.append(('store', _cell(e['_K'], s, P), 'dict'))
 
     def store_obj(e, s, tr):
-        tr.append(('store', _cell(e['_K'], s, P)))
+        tr.append(('store', _cell(e['_K'], s, P), 'object'))
 
     it = _mk_interp(fn, [('get_metaclass(self).attributes', attr_iter)], P,
                     extra_atoms=[('_K in self.__dict__', in_dict(False)), ('_K not in self.__dict__', in_dict(True))])
@@ -173,6 +173,13 @@ def access(ctx):
             ok = cells == {'raw'}
             msg = '%s: an undeclared name must be stored under its own spelling; cells written: %s' % (desc, stores)
         r.check(ok, desc, fn, construct='xtuml.meta:Class.__setattr__', key='cells %s %s' % (sorted(cells), declared), msg=msg)
+        if declared and not stored:
+            hows = [t[2] for t in tr if t[0] == 'store']
+            r.check(hows == ['object'], desc + ': a declared attribute without a stored value is written through the class (descriptor protocol)',
+                    fn, construct='xtuml.meta:Class.__setattr__', key='bypass-descriptor',
+                    msg='%s: the value is written straight into the instance dictionary (%s); a declared attribute that has no stored value may '
+                        'be a referential attribute whose class-level property must receive (and reject) the write -- otherwise a shadow '
+                        'value appears that other spellings read' % (desc, hows))
         for t in tr:
             if t[0] == 'raw-compare' and declared and not exact:
                 r.violation('%s: name comparison without a common case normaliser (%s)' % (desc, t[1]), fn,
